@@ -358,6 +358,10 @@ func genPolicy(r *prng.R, ln int, disp bool) []string {
 		if r.Chance(65) {
 			st = prng.Pick(r, []int{500, 501, 502, 504, 599})
 		}
+		if started[s] >= att && att >= 1 && r.Chance(25) {
+			// a NEW logical call re-uses the sequence id right after (or around) exhaustion
+			started[s] = 0
+		}
 		id := s
 		if started[s] > 0 && !(wild && r.Chance(30)) {
 			id = fmt.Sprintf("%s-r%d", s, started[s])
